@@ -424,11 +424,22 @@ func (g *gen) funds() []wasmCoin {
 		}
 		return out
 	}
-	switch g.r.Pick(55, 15, 30) {
+	switch g.r.Pick(50, 12, 26, 12) {
 	case 0:
 		return out
 	case 1:
 		return append(out, wasmCoin{"unibi", big.NewInt(int64(g.r.Range(1, 50)))})
+	case 3:
+		// the same denom listed more than once with amounts whose sum needs more than 256 bits
+		// (anything that merges the entries with sdk.Coins.Add / Int.Add overflows)
+		d := g.pick("unibi", g.w.coinDenom, "zzz", g.denom())
+		switch g.r.Intn(3) {
+		case 0:
+			return append(out, wasmCoin{d, new(big.Int).Set(two255)}, wasmCoin{d, new(big.Int).Set(two255)})
+		case 1:
+			return append(out, wasmCoin{d, new(big.Int).Set(two256m1)}, wasmCoin{d, big.NewInt(1)})
+		}
+		return append(out, wasmCoin{"aaa", big.NewInt(1)}, wasmCoin{d, new(big.Int).Set(two256m1)}, wasmCoin{d, new(big.Int).Set(two256m1)})
 	}
 	n := g.r.Range(1, 3)
 	for i := 0; i < n; i++ {
@@ -703,6 +714,13 @@ func (w *world) openers() []c08In {
 		c08In{2, "call", "0", qReq + 1000, q, "opener/oracle-gas-inside-body"},
 		c08In{2, "top", "1000000000000", 1_000_000, q, "opener/oracle-query-with-value"},
 		c08In{2, "top", "0", 1_000_000, q, "opener/oracle-ok"},
+		// funds arrays naming one denom twice with amounts summing to 2^256
+		c08In{1, "top", "0", 3_000_000, pack(wABI, "execute", w.wasmAddr.String(), []byte(`{"increment":{}}`),
+			[]wasmCoin{{"unibi", two255}, {"unibi", two255}}), "opener/wasm-execute-dup-funds"},
+		c08In{1, "call", "0", 3_000_000, pack(wABI, "instantiate", "", w.wasmCodeID, []byte(`{"count": 0}`), "x",
+			[]wasmCoin{{"unibi", two256m1}, {"unibi", big.NewInt(1)}}), "opener/wasm-instantiate-dup-funds"},
+		c08In{1, "top", "0", 3_000_000, pack(wABI, "executeMulti", []wasmExecMsg{{w.wasmAddr.String(), []byte(`{"increment":{}}`),
+			[]wasmCoin{{"ucoin", two255}, {"ucoin", two255}}}}), "opener/wasm-executeMulti-dup-funds"},
 		// bank supply of the ERC20-born denom is 2^255: minting 2^255 more needs 257 bits
 		c08In{0, "top", "0", 3_000_000, pack(ftABI, "sendToBank", w.ercErc20, two255, to), "opener/sendToBank-supply-overflow"},
 		c08In{0, "call", "0", 3_000_000, pack(ftABI, "sendToBank", w.ercErc20, two255, to), "opener/sendToBank-supply-overflow"},
